@@ -1429,16 +1429,11 @@ def reset_vcs(read, T):
         after = env.vars["self." + f_]
         vcr.goal("C10 reset() leaves `%s` exactly as the constructor initialises it" % f_, after.t == vals[f_].t)
     obs += vcr.discharge(env)
-    # --- reset zeroes all sample storage and re-activates every channel (syntactic)
-    want_buf = "self.buffer.iter_mut().for_each(|ch| ch.iter_mut().for_each(|s| *s = T::zero()))"
-    want_mask = "self.channel_mask.iter_mut().for_each(|val| *val = true)"
-    norm = lambda t: t.replace(" ", "")
-    got = [norm(x) for x in skipped]
-    for label, want in (("C10 reset() zeroes every sample of every channel's history buffer", want_buf),
-                        ("C10 reset() re-activates every channel", want_mask)):
-        ok = norm(want) in got
-        obs.append(Obligation("%s.reset :: %s" % (T, label), "syntactic", DISCHARGED if ok else FAILED, 0.0, "complete", [fn], checks=1,
-                              detail="" if ok else "reset() does not contain `%s` (found: %s)" % (want, skipped)))
+    # --- reset zeroes all sample storage and re-activates every channel (syntactic, form-tolerant recogniser)
+    from . import tierb_misc
+    sigr, bodyr, l0r, _ = rp.find_fn(src, "reset", ["Resampler", "for " + kind.T + "<"])
+    obs.append(tierb_misc.storage_obligation(T, fn, bodyr, "buffer", "C10 reset() zeroes every sample of every channel's history buffer"))
+    obs.append(tierb_misc.storage_obligation(T, fn, bodyr, "channel_mask", "C10 reset() re-activates every channel", mask=True))
     return obs
 
 
